@@ -28,6 +28,9 @@ type personSpec struct {
 	AltName           bool `json:"alt_name,omitempty"`
 	Nick              bool `json:"nick,omitempty"`
 	NameOnlyGiven     bool `json:"only_given,omitempty"`
+	// NamesakeOf: k > 0 = this person has exactly the primary name of person k-1 (only when neither
+	// of the two is living: namesakes among the dead are what an index sorts as equal keys)
+	NamesakeOf int `json:"namesake_of,omitempty"`
 	// Attr: a fact that is not an event, with a date and a place of its own, below this tag
 	// ("" none; OCCU, EDUC, RELI, _MILT, or NOTE/x for a place two levels down)
 	Attr string `json:"attr,omitempty"`
@@ -84,6 +87,9 @@ func (c privCase) graph(variant int) *gen.GraphBP {
 			p.Names = append(p.Names, gen.Str(given))
 		} else {
 			p.Names = append(p.Names, gen.Str(given+" /"+sn+"/"))
+		}
+		if c.namesake(i) {
+			p.Names[0] = g.People[ps.NamesakeOf-1].Names[0]
 		}
 		if ps.AltName {
 			p.Names = append(p.Names, gen.Str(fmt.Sprintf("Alt%dq%s /AltS%dq%s/", i, tag, i, tag)))
@@ -151,6 +157,12 @@ func (c privCase) graph(variant int) *gen.GraphBP {
 		g.Sources = append(g.Sources, &gen.SourceBP{ID: "S1", Title: "A source"})
 	}
 	return g
+}
+
+// namesake: person i carries the primary name of an earlier person, and neither is living.
+func (c privCase) namesake(i int) bool {
+	k := c.People[i].NamesakeOf - 1
+	return k >= 0 && k < i && !living(c.People[i].Status) && !living(c.People[k].Status)
 }
 
 // markers of person i that identify the person (names only).
@@ -255,7 +267,7 @@ func check(c privCase) (fl *harness.Failure, st stats) {
 	// (iii) positive control: people who are not living stay fully published
 	if opts.Individuals {
 		for i, ps := range c.People {
-			if living(ps.Status) {
+			if living(ps.Status) || c.namesake(i) {
 				continue
 			}
 			given := strings.ToLower(fmt.Sprintf("Gv%dq", i))
@@ -359,6 +371,11 @@ func genCase(rt *rapid.T) privCase {
 		Before:  rapid.SampledFrom([]string{"", "", "", "show", "show", "placeholder", "hide"}).Draw(rt, "before"),
 		Sources: rapid.Bool().Draw(rt, "sources")}
 	n := rapid.IntRange(1, 6).Draw(rt, "people")
+	// (one document in 40 is big: 25..70 people, 5..20 families with up to 9 children)
+	big := rapid.IntRange(0, 39).Draw(rt, "big") == 20
+	if big {
+		n = rapid.IntRange(25, 70).Draw(rt, "bigPeople")
+	}
 	for i := 0; i < n; i++ {
 		ps := personSpec{Status: rapid.SampledFrom(statuses).Draw(rt, "status"), SharesSurnameWith: -1, SharesPlaceWith: -1}
 		if i > 0 && rapid.IntRange(0, 2).Draw(rt, "sharesSurname") == 0 {
@@ -371,9 +388,15 @@ func genCase(rt *rapid.T) privCase {
 		ps.AltName = rapid.IntRange(0, 2).Draw(rt, "alt") == 0
 		ps.Nick = rapid.IntRange(0, 3).Draw(rt, "nick") == 0
 		ps.NameOnlyGiven = rapid.IntRange(0, 6).Draw(rt, "onlyGiven") == 0
+		if i > 0 && rapid.IntRange(0, 5).Draw(rt, "namesake") == 2 {
+			ps.NamesakeOf = 1 + rapid.IntRange(0, i-1).Draw(rt, "namesakeOf")
+		}
 		c.People = append(c.People, ps)
 	}
-	nf := rapid.IntRange(0, 3).Draw(rt, "families")
+	nf, maxKids := rapid.IntRange(0, 3).Draw(rt, "families"), 3
+	if big {
+		nf, maxKids = rapid.IntRange(5, 20).Draw(rt, "bigFamilies"), 9
+	}
 	pick := func(label string) int {
 		if rapid.IntRange(0, 4).Draw(rt, label+"none") == 0 {
 			return -1
@@ -382,7 +405,7 @@ func genCase(rt *rapid.T) privCase {
 	}
 	for i := 0; i < nf; i++ {
 		f := famSpec{Husb: pick("husb"), Wife: pick("wife"), Marr: rapid.Bool().Draw(rt, "marr")}
-		nk := rapid.IntRange(0, 3).Draw(rt, "kids")
+		nk := rapid.IntRange(0, maxKids).Draw(rt, "kids")
 		for k := 0; k < nk; k++ {
 			if x := pick("kid"); x >= 0 {
 				f.Kids = append(f.Kids, x)
@@ -395,7 +418,7 @@ func genCase(rt *rapid.T) privCase {
 
 func TestCheckPrivacy(t *testing.T) {
 	s := harness.NewSub("living-people-marked-documents",
-		"family graphs (1..6 people, 0..3 families) in which every name part of every person is a unique marker (given, surname, an alternative NAME record, a further NAME with NICK) and places/notes are markers too, incl. the place and date of a fact that is not an event (OCCU, EDUC, RELI, a custom tag, one or two levels down); status by construction and far from the 100-year boundary: dead = DEAT with date, DEAT without date, or born about 1810 without DEAT; living = born 2001+ without DEAT, no dates at all, or born 2003 with BURI but no DEAT; living people in every role (spouse, parent, child, unconnected), optionally sharing a surname or a place with a dead person; visibility hide/placeholder x page-group masks x jobs 1/4; in four of seven cases the same document object was published once before (show, placeholder or hide, all page groups) and the site under test is the later one. Oracle: IsLiving() agrees with the construction; no file name and no file content (case-insensitive) contains a name marker of a living person; every non-living person has a page, is listed, and the name shows; pages stay well formed; in hide mode the published files are byte-identical when only the living people's names, dates, places and notes are changed; non-trivial = a living and a dead person connected by a family")
+		"family graphs (1..6 people, 0..3 families; one in 40 with 25..70 people and 5..20 families of up to 9 children) in which every name part of every person is a unique marker (given, surname, an alternative NAME record, a further NAME with NICK) and places/notes are markers too, incl. the place and date of a fact that is not an event (OCCU, EDUC, RELI, a custom tag, one or two levels down); status by construction and far from the 100-year boundary: dead = DEAT with date, DEAT without date, or born about 1810 without DEAT; living = born 2001+ without DEAT, no dates at all, or born 2003 with BURI but no DEAT; living people in every role (spouse, parent, child, unconnected), optionally sharing a surname or a place with a dead person; dead people who carry exactly the name of another dead person; visibility hide/placeholder x page-group masks x jobs 1/4; in four of seven cases the same document object was published once before (show, placeholder or hide, all page groups) and the site under test is the later one. Oracle: IsLiving() agrees with the construction; no file name and no file content (case-insensitive) contains a name marker of a living person; every non-living person has a page, is listed, and the name shows; pages stay well formed; in hide mode the published files are byte-identical when only the living people's names, dates, places and notes are changed; non-trivial = a living and a dead person connected by a family")
 	s.Rapid(t, harness.Share(harness.Pick(30000, 600000)), 170, func(rt *rapid.T) {
 		c := genCase(rt)
 		s.Crumb(c)
@@ -409,8 +432,11 @@ func TestCheckPrivacy(t *testing.T) {
 				cls = append(cls, "status:"+p.Status)
 			}
 		}
+		if len(c.People) >= 20 {
+			cls = append(cls, "big:>=20-people")
+		}
 		s.Eval(harness.JSON(c), nt, cls...)
-		if nt {
+		if nt && len(c.People) < 20 {
 			s.MaybeSample(c)
 		}
 		if fl != nil && s.Report(c, fl) {
